@@ -132,6 +132,57 @@ func coldChild(opName string) {
 	fmt.Println("COLD OK")
 }
 
+// first-use child: the FIRST execution of the given operations in this process is concurrent (nothing has warmed
+// a lazily built cache, memo or table for them). Expected values come from the reference model where the operation
+// has one; otherwise all goroutines running the same operation must agree.
+func firstUseChild(names []string) {
+	e := newEnv()
+	start := make(chan struct{})
+	res := make([][]byte, nGoroutines)
+	var wg sync.WaitGroup
+	for g := 0; g < nGoroutines; g++ {
+		wg.Add(1)
+		o := findOp(names[g%len(names)])
+		if o == nil {
+			fmt.Println("FIRSTUSE SKIP")
+			return
+		}
+		go func(g int) {
+			defer wg.Done()
+			defer func() {
+				if x := recover(); x != nil {
+					res[g] = []byte(fmt.Sprint("panic: ", x))
+				}
+			}()
+			<-start
+			res[g] = o.f(e)
+		}(g)
+	}
+	close(start)
+	wg.Wait()
+	first := map[string][]byte{}
+	for g := range res {
+		n := names[g%len(names)]
+		o := findOp(n)
+		w := first[n]
+		if o.want != nil {
+			w = o.want(e)
+		} else if w == nil {
+			first[n] = res[g]
+			continue
+		}
+		if !bytes.Equal(res[g], w) {
+			r := res[g]
+			if len(r) > 48 {
+				r = r[:48]
+			}
+			fmt.Printf("FIRSTUSE MISMATCH goroutine %d (%s): got %x..\n", g, n, r)
+			return
+		}
+	}
+	fmt.Println("FIRSTUSE OK")
+}
+
 // init child: before any other library call, both generator tables must already be complete.
 func initChild() {
 	switch m := tablesComplete(); m {
@@ -156,6 +207,10 @@ func child(args ...string) string {
 }
 
 func mainRace() {
+	if len(os.Args) > 2 && os.Args[1] == "-firstuse" {
+		firstUseChild(os.Args[2:])
+		return
+	}
 	if len(os.Args) > 2 && os.Args[1] == "-cold" {
 		coldChild(os.Args[2])
 		os.Exit(0)
@@ -171,6 +226,12 @@ func mainRace() {
 			want[n] = findOp(n).f(e)
 		}
 		return runConcurrent(e, d.L("ops"), want, 20)
+	})
+	mc.Register("firstuse", func(d mc.D) string {
+		if out := child(append([]string{"-firstuse"}, d.L("ops")...)...); !strings.Contains(out, "FIRSTUSE OK") && !strings.Contains(out, "FIRSTUSE SKIP") {
+			return out
+		}
+		return ""
 	})
 	mc.Register("cold", func(d mc.D) string {
 		if out := child("-cold", d.S("op")); !strings.Contains(out, "COLD OK") && !strings.Contains(out, "COLD SKIP") {
@@ -213,6 +274,28 @@ func mainRace() {
 			R.Class("cold-start processes (first library calls concurrent)", 1)
 		}
 	}
+	// (c') first use: for every operation (alone and with its neighbour in the list) a fresh process in which the
+	// first executions of that operation are concurrent
+	var fu [][]string
+	for i := range ops {
+		fu = append(fu, []string{ops[i].name, ops[i].name})
+		if th || i%2 == 0 {
+			fu = append(fu, []string{ops[i].name, ops[(i+1)%len(ops)].name})
+		}
+	}
+	mc.Par(len(fu), func(i int) {
+		out := child(append([]string{"-firstuse"}, fu[i]...)...)
+		R.T(1)
+		R.NTs(1)
+		R.States(1)
+		if !strings.Contains(out, "FIRSTUSE OK") && !strings.Contains(out, "FIRSTUSE SKIP") {
+			if len(out) > 1500 {
+				out = out[:1500]
+			}
+			R.Mismatch("first-use/"+fu[i][0]+" || "+fu[i][1], "firstuse", out, mc.D{"ops": fu[i]})
+		}
+		R.Class("first-use processes (first executions of an operation concurrent)", 1)
+	})
 	// (b) free-running pairs on shared objects
 	e := newEnv()
 	fp := e.fingerprint()
